@@ -65,10 +65,6 @@ def dsd (r1 r2 D1 D2 α1 α2 td r : ℝ) : ℝ :=
 
 /-! ### what C13 asks of a burn-time field `t : E → ℝ` -/
 
-/-- "two points … differ in burn time by at most their distance divided by the speed" -/
-def LipschitzOnWith (t : E → ℝ) (D : ℝ) (S : Set E) : Prop :=
-  ∀ q ∈ S, ∀ q' ∈ S, |t q - t q'| ≤ dist q q' / D
-
 /-- derivative-free eikonal equation along the ray from `c` in the unit direction `u`:
 moving outwards by `s' - s` costs exactly `(s' - s) / D` -/
 def EikonalOnRays (t : E → ℝ) (D : ℝ) (c : E) : Prop :=
